@@ -31,6 +31,9 @@ type Obligation struct {
 	Model  string
 	SMT    string
 	Cover  bool // a reachability query: `sat`/`unknown` is the good answer
+	Replay *ReplayInfo
+	Clause *Clause
+	RR     *ReplayResult
 }
 
 // VerifyFunc generates the obligations of one function under contract.
@@ -74,6 +77,12 @@ func (e *Engine) VerifyFunc(fn *ssa.Function, spec *FuncSpec, prop string) (err 
 		args = append(args, v)
 		vars[p.Name()] = TV{V: v, T: p.Type()}
 	}
+	x.replayInfo = &ReplayInfo{Fn: fn, Spec: spec, Globals: map[string]Val{}, GlobalT: map[string]types.Type{}}
+	for i, p := range fn.Params {
+		x.replayInfo.Params = append(x.replayInfo.Params, replayParam{Name: p.Name(), T: p.Type(), V: args[i]})
+	}
+	e.curExec = x
+	defer func() { e.curExec = nil }()
 	x.entryVars = map[string]Val{}
 	x.entryTyp = map[string]types.Type{}
 	for n, tv := range vars {
@@ -245,7 +254,9 @@ func (x *Exec) checkPost(st *State, ret *ssa.Return, rs []Val) {
 			continue
 		}
 		g := x.evalClause(st, env, c, x.spec)
+		x.curClause = c
 		x.oblige(st, fmt.Sprintf("%s/post#%d", x.qname, c.Ord), "post", g, c.Text, fmt.Sprintf("%s:%d", c.File, c.Line), c.Tags)
+		x.curClause = nil
 	}
 }
 
@@ -314,6 +325,13 @@ func (x *Exec) evalAssignTarget(env *Env, c *Clause, spec *FuncSpec) (locs []ass
 		b := env.eval(t.X)
 		if b.Pkg != "" {
 			return []assignLoc{{kind: "global", text: c.Text}}
+		}
+		if strings.HasPrefix(t.Sel, "$") {
+			h := ghostHandle(b.V)
+			if h == nil {
+				env.fail("ghost field of a value without identity")
+			}
+			return []assignLoc{{kind: "ghost", ref: h, text: t.Sel}}
 		}
 		if sty, ok := isStructPtr(b.T); ok {
 			elem := b.T.Underlying().(*types.Pointer).Elem()
@@ -481,6 +499,14 @@ func (x *Exec) checkLocAssignable(st *State, in ssa.Instruction, loc assignLoc, 
 		g = Or(cs...)
 	case "cell":
 		return
+	case "ghost":
+		cs := []*Term{Not(st.isAllocIn(x.oldHeap, loc.ref))}
+		for _, l := range x.assignLocs {
+			if l.kind == "ghost" && l.text == loc.text {
+				cs = append(cs, Eq(l.ref, loc.ref))
+			}
+		}
+		g = Or(cs...)
 	case "global":
 		ok := false
 		for _, l := range x.assignLocs {
@@ -526,6 +552,18 @@ func (x *Exec) havocLoc(st *State, loc assignLoc) {
 			}
 			v := x.freshVal(st, s.Field(i).Type(), "ho_"+s.Field(i).Name())
 			st.storeField(loc.sty, i, loc.ref, v)
+		}
+	case "ghost":
+		t := e.ghostType(loc.text)
+		if t == nil {
+			x.fail("undeclared ghost field %s", loc.text)
+		}
+		v := x.freshVal(st, t, "gh_"+loc.text[1:])
+		ls := e.leaves(t)
+		ts := e.toLeaves(t, v)
+		for i, l := range ls {
+			name := "Gh_" + loc.text[1:] + "_" + l.Name
+			st.heapSet(name, Store(st.heapGet(name, e.fldSort(l.S)), loc.ref, ts[i]))
 		}
 	case "cell":
 		c := st.cells[*loc.cell.Cell]
